@@ -55,9 +55,9 @@ def check(scn, tr, out):
         active = {a["st"]: a for a in c["active"]}
         for st in ids:
             p = float(sched[st][0])
-            evse = net._EVSEs[st]
-            if not evse._valid_rate(p):
-                out("pilot-not-accepted:%s" % opt["kind"], "%s: pilot %s for %s is not accepted by its EVSE" % (ctx, p, st), p, list(evse.allowable_pilot_signals))
+            espec = S.NETS[scn["net"]]["stations"][st][0]
+            if not S.spec_accepts(espec, p):
+                out("pilot-not-accepted:%s" % opt["kind"], "%s: pilot %s for %s is not accepted by its EVSE" % (ctx, p, st), p, list(espec))
             if st not in active:
                 if p != 0:
                     out("pilot-without-session", "%s: station %s has no active session but pilot %s" % (ctx, st, p), p, 0)
@@ -66,7 +66,7 @@ def check(scn, tr, out):
             amp_periods = a["remaining_kwh"] * 1000 / volt[st] * 60 / scn["period"]
             if p > amp_periods * (1 + 1e-9) + 1e-9:
                 out("above-remaining-demand:%s" % opt["kind"], "%s: pilot %s for session %s exceeds its remaining demand of %.6g A*periods" % (ctx, p, a["sid"], amp_periods), p, amp_periods)
-            if p < evse.max_rate - 1e-9:
+            if p < S.spec_max_rate(espec) - 1e-9:
                 limited = True
             if opt["est"]:
                 b = c["bounds"].get(a["sid"])
@@ -75,7 +75,7 @@ def check(scn, tr, out):
                 elif b is None:
                     out("estimator:no-bound", "%s: estimator holds no bound for session %s" % (ctx, a["sid"]), None, None)
                 else:
-                    allowed = max(b, evse.min_rate if opt["unint"] else 0.0)
+                    allowed = max(b, S.spec_min_rate(espec) if opt["unint"] else 0.0)
                     if p > allowed + 1e-9:
                         out("above-estimator-bound:%s" % opt["kind"], "%s: pilot %s for session %s (station %s) exceeds the estimator's bound %.6g" % (ctx, p, a["sid"], st, b), p, allowed)
     if tr.error is not None:
